@@ -29,6 +29,10 @@ P1, P2 = 1e-5, 1e-7
 GRID = [
     ["DistBernoulli", [0.5]], ["DistBernoulli", [0.01]], ["DistBernoulli", [0.99]], ["DistBernoulli", [0.0]], ["DistBernoulli", [1.0]],
     ["DistBinomial", [7, 0.0]], ["DistBinomial", [7, 1.0]], ["DistGeometric", [1.0]], ["DistNegBinomial", [3, 1.0]], ["DistNegBinomial", [1, 1.0]],
+    # a parameter of exactly 1 (2, 0.5) is where closed-form special cases and short cuts live
+    ["DistBeta", [3.0, 1.0]], ["DistBeta", [1.0, 3.0]], ["DistBeta", [0.5, 1.0]], ["DistBeta", [1, 2.5]], ["DistBeta", [2.0, 2.0]],
+    ["DistPearson6", [1.0, 2.5, 1.0]], ["DistPearson6", [2.5, 1.0, 3.0]], ["DistPearson5", [2.0, 1.0]], ["DistWeibull", [2.0, 1.0]],
+    ["DistGamma", [2.0, 1.0]], ["DistGamma", [0.5, 1.0]], ["DistErlang", [1.0, 2]], ["DistLogNormal", [0.0, 0.5]],
     ["DistBeta", [0.5, 0.5]], ["DistBeta", [1.0, 1.0]], ["DistBeta", [2.0, 5.0]], ["DistBeta", [0.7, 3.0]], ["DistBeta", [8, 1.5]],
     ["DistBinomial", [1, 0.3]], ["DistBinomial", [10, 0.5]], ["DistBinomial", [50, 0.02]], ["DistBinomial", [200, 0.9]],
     ["DistConstant", [2.5]],
@@ -48,6 +52,7 @@ GRID = [
     ["DistPearson5", [0.5, 1.0]], ["DistPearson5", [1.0, 2.0]], ["DistPearson5", [3.0, 0.5]], ["DistPearson5", [12.0, 10.0]],
     ["DistPearson6", [0.5, 0.7, 1.0]], ["DistPearson6", [2.0, 3.0, 2.0]], ["DistPearson6", [1.0, 1.0, 0.5]], ["DistPearson6", [5.0, 0.5, 1.0]],
     ["DistPoisson", [0.5]], ["DistPoisson", [1.0]], ["DistPoisson", [4.5]], ["DistPoisson", [30.0]], ["DistPoisson", [100.0]], ["DistPoisson", [80]],
+    ["DistPoisson", [700.0]], ["DistPoisson", [746.0]], ["DistPoisson", [1500.0]],      # exp(-rate) underflows beyond ~745
     ["DistTriangular", [0.0, 0.5, 1.0]], ["DistTriangular", [0.0, 0.0, 1.0]], ["DistTriangular", [0.0, 1.0, 1.0]], ["DistTriangular", [-5.0, -4.9, 10.0]],
     ["DistTriangular", [1000, 1000.5, 1001]],
     ["DistUniform", [0.0, 1.0]], ["DistUniform", [-5.0, 2.5]], ["DistUniform", [1e6, 1e6 + 1e-3]],
@@ -62,7 +67,7 @@ def plan(tier):
 
 
 def _sh(r):
-    return round(r.choice([r.uniform(0.3, 1), r.uniform(1, 3), r.uniform(3, 20)]), 3)
+    return round(r.choice([r.uniform(0.3, 1), r.uniform(1, 3), r.uniform(3, 20), r.choice([1.0, 1.0, 2.0, 0.5, 3.0])]), 3)
 
 
 def _sc(r):
